@@ -41,6 +41,9 @@ func (r *Run) ledgerEra(i int) (allow, require uint64) {
 func runLedger(r *Run, prop string) {
 	if prop == "C09" {
 		c09Copies(r)
+		for i := 0; i < r.pick(30, 800); i++ {
+			c18Synthetic(r) // decoded multiproof sets own their proofs
+		}
 	}
 	nchains := r.pick(40, 600)
 	for ci := 0; ci < nchains; ci++ {
